@@ -121,7 +121,8 @@ func (g *pgen) stmt(ind int, e *pvars) {
 	}
 	aT, bT := fmt.Sprintf("A%d", g.caseNo), fmt.Sprintf("B%d", g.caseNo)
 	alts := []alt{
-		{6, true, func() { // allocation
+		{8, true, func() { g.roundTrip(ind, e) }},
+		{3, true, func() { // allocation
 			v := g.v("p")
 			switch g.r.Intn(3) {
 			case 0:
@@ -211,7 +212,11 @@ func (g *pgen) stmt(ind int, e *pvars) {
 				g.count("slice-store")
 			} else {
 				v, s := g.v("p"), g.pick(e.SL)
-				g.emit(ind, "%s := %s[len(%s)-1]", v, s, s)
+				if g.r.Intn(4) == 0 {
+					g.emit(ind, "%s := %s[len(%s)-1]", v, s, s)
+				} else {
+					g.emit(ind, "%s := %s[0]", v, s)
+				}
 				g.count("slice-load")
 				g.defP(ind, e, v, true)
 			}
@@ -245,11 +250,11 @@ func (g *pgen) stmt(ind int, e *pvars) {
 		{3, true, func() { // array field: element store / load / slice of the array
 			switch g.r.Intn(3) {
 			case 0:
-				g.emit(ind, "%s.a[%d] = %s", g.pick(e.P), g.r.Intn(2), g.pick(e.P))
+				g.emit(ind, "%s.a[%d] = %s", g.pick(e.P), g.r.Intn(4)/3, g.pick(e.P))
 				g.count("array-store")
 			case 1:
 				v := g.v("p")
-				g.emit(ind, "%s := %s.a[%d]", v, g.pick(e.P), g.r.Intn(2))
+				g.emit(ind, "%s := %s.a[%d]", v, g.pick(e.P), g.r.Intn(4)/3)
 				g.count("array-load")
 				g.defP(ind, e, v, true)
 			default:
@@ -287,7 +292,7 @@ func (g *pgen) stmt(ind int, e *pvars) {
 				if g.r.Intn(2) == 0 {
 					g.emit(ind, "%s := make(map[int]*S)", v)
 				} else {
-					g.emit(ind, "%s := map[int]*S{%d: %s}", v, g.r.Intn(3), g.pick(e.P))
+					g.emit(ind, "%s := map[int]*S{%d: %s}", v, g.r.Intn(4)/3, g.pick(e.P))
 				}
 				g.probeM(ind, v)
 				e.M = append(e.M, v)
@@ -298,16 +303,16 @@ func (g *pgen) stmt(ind int, e *pvars) {
 			m := g.pick(e.M)
 			switch g.r.Intn(4) {
 			case 0:
-				g.emit(ind, "%s[%d] = %s", m, g.r.Intn(3), g.pick(e.P))
+				g.emit(ind, "%s[%d] = %s", m, g.r.Intn(4)/3, g.pick(e.P))
 				g.count("map-update")
 			case 1:
 				v := g.v("p")
-				g.emit(ind, "%s := %s[%d]", v, m, g.r.Intn(3))
+				g.emit(ind, "%s := %s[%d]", v, m, g.r.Intn(4)/3)
 				g.count("map-lookup")
 				g.defP(ind, e, v, true)
 			case 2:
 				v, ok := g.v("p"), g.v("ok")
-				g.emit(ind, "%s, %s := %s[%d]", v, ok, m, g.r.Intn(3))
+				g.emit(ind, "%s, %s := %s[%d]", v, ok, m, g.r.Intn(4)/3)
 				g.emit(ind, "_ = %s", ok)
 				g.count("map-lookup-ok")
 				g.defP(ind, e, v, true)
@@ -372,7 +377,25 @@ func (g *pgen) stmt(ind int, e *pvars) {
 		}},
 		{5, len(e.C) > 0, func() { // send / receive / comma-ok receive (never blocking)
 			c := g.pick(e.C)
-			switch g.r.Intn(3) {
+			switch g.r.Intn(5) {
+			case 3:
+				g.emit(ind, "select {")
+				g.emit(ind, "case %s <- %s:", c, g.pick(e.P))
+				g.emit(ind, "default:")
+				g.emit(ind, "}")
+				g.count("select-send")
+			case 4:
+				v := g.v("p")
+				g.emit(ind, "%s := %s", v, g.pick(e.P))
+				g.emit(ind, "select {")
+				g.emit(ind, "case %s = <-%s:", v, c)
+				if len(e.C) > 1 {
+					g.emit(ind, "case %s <- %s:", g.pick(e.C), g.pick(e.P))
+				}
+				g.emit(ind, "default:")
+				g.emit(ind, "}")
+				g.count("select-recv")
+				g.defP(ind, e, v, true)
 			case 0:
 				g.emit(ind, "if len(%s) < cap(%s) {", c, c)
 				g.emit(ind+1, "%s <- %s", c, g.pick(e.P))
@@ -429,6 +452,12 @@ func (g *pgen) stmt(ind int, e *pvars) {
 			}
 			g.emit(ind, "_ = %s", v)
 			e.F = append(e.F, v)
+			if g.r.Intn(2) == 0 {
+				w := g.v("p")
+				g.emit(ind, "%s := %s(%d, %s)", w, v, g.newSite(), g.pick(e.P))
+				g.count("call-dynamic")
+				g.defP(ind, e, w, true)
+			}
 		}},
 		{5, len(e.F) > 0, func() { // call through a function value
 			v := g.v("p")
@@ -597,6 +626,25 @@ func (g *pgen) stmt(ind int, e *pvars) {
 			}
 			g.defP(ind, e, v, true)
 		}},
+		{2, true, func() { // instance of a generic function
+			v := g.v("p")
+			g.emit(ind, "%s := gid%d[*S](%d, %s)", v, g.caseNo, g.newSite(), g.pick(e.P))
+			g.count("call-generic")
+			g.defP(ind, e, v, true)
+		}},
+		{2, len(e.AV) > 0, func() { // promoted method through an embedded pointer: interface holding *C, wrapper (*C).M
+			iv := g.v("iv")
+			g.emit(ind, "var %s I = &C%d{A%d: %s}", iv, g.caseNo, g.caseNo, g.pick(e.AV))
+			g.emit(ind, "_ = %s", iv)
+			e.I = append(e.I, iv)
+			g.count("make-interface-embedded")
+		}},
+		{2, true, func() { // panic / recover carrying a pointer
+			v := g.v("p")
+			g.emit(ind, "%s := pan%d(%d, %s)", v, g.caseNo, g.newSite(), g.pick(e.P))
+			g.count("call-panic-recover")
+			g.defP(ind, e, v, true)
+		}},
 		{3, true, func() { // recursion (bounded)
 			v := g.v("p")
 			g.emit(ind, "%s := rec%d(%d, %s, %s, 2)", v, g.caseNo, g.newSite(), g.pick(e.P), g.pick(e.P))
@@ -691,6 +739,119 @@ func (g *pgen) stmt(ind int, e *pvars) {
 	}
 }
 
+// roundTrip emits a store into some kind of cell immediately followed by a load from it, so that the
+// native run is certain to observe the flow (the free-form statements above rarely hit the same cell).
+func (g *pgen) roundTrip(ind int, e *pvars) {
+	x, v := g.pick(e.P), g.v("p")
+	switch g.r.Intn(12) {
+	case 0:
+		h := g.pick(e.P)
+		f := g.pick([]string{"p", "q"})
+		g.emit(ind, "%s.%s = %s", h, f, x)
+		g.emit(ind, "%s := %s.%s", v, h, f)
+		g.count("rt-field")
+	case 1:
+		m := g.v("m")
+		if len(e.M) > 0 && g.r.Intn(2) == 0 {
+			m = g.pick(e.M)
+		} else {
+			g.emit(ind, "%s := make(map[int]*S)", m)
+			g.probeM(ind, m)
+			e.M = append(e.M, m)
+		}
+		g.emit(ind, "%s[7] = %s", m, x)
+		g.emit(ind, "%s := %s[7]", v, m)
+		g.count("rt-map")
+	case 2:
+		m := g.v("mk")
+		if len(e.MK) > 0 && g.r.Intn(2) == 0 {
+			m = g.pick(e.MK)
+		} else {
+			g.emit(ind, "%s := make(map[*S]*S)", m)
+			g.probeMK(ind, m)
+			e.MK = append(e.MK, m)
+		}
+		k := g.pick(e.P)
+		g.emit(ind, "%s[%s] = %s", m, k, x)
+		g.emit(ind, "%s := %s[%s]", v, m, k)
+		g.count("rt-mapk")
+	case 3:
+		c := g.v("ch")
+		g.emit(ind, "%s := make(chan *S, 2)", c)
+		g.probeC(ind, c)
+		e.C = append(e.C, c)
+		g.emit(ind, "%s <- %s", c, x)
+		g.emit(ind, "%s := <-%s", v, c)
+		g.count("rt-chan")
+	case 4:
+		sl := g.v("sl")
+		if len(e.SL) > 0 && g.r.Intn(2) == 0 {
+			sl = g.pick(e.SL)
+		} else {
+			g.emit(ind, "%s := make([]*S, 1, 2)", sl)
+			g.probeSL(ind, sl)
+			e.SL = append(e.SL, sl)
+		}
+		g.emit(ind, "%s[0] = %s", sl, x)
+		g.emit(ind, "%s := %s[0]", v, sl)
+		g.count("rt-slice")
+	case 5:
+		h := g.pick(e.P)
+		g.emit(ind, "%s.a[1] = %s", h, x)
+		g.emit(ind, "%s := %s.a[1]", v, h)
+		g.count("rt-array")
+	case 6:
+		pp := g.v("pp")
+		g.emit(ind, "%s := &%s.p", pp, g.pick(e.P))
+		g.probePP(ind, pp)
+		e.PP = append(e.PP, pp)
+		g.emit(ind, "*%s = %s", pp, x)
+		g.emit(ind, "%s := *%s", v, pp)
+		g.count("rt-pp")
+	case 7:
+		if g.o.NoAppend || len(e.SL) == 0 {
+			g.emit(ind, "%s := %s", v, x)
+			break
+		}
+		sl := g.v("sl")
+		g.emit(ind, "%s := append(%s, %s)", sl, g.pick(e.SL), x)
+		g.probeSL(ind, sl)
+		e.SL = append(e.SL, sl)
+		g.emit(ind, "%s := %s[len(%s)-1]", v, sl, sl)
+		g.count("rt-append")
+	case 8:
+		ev := g.v("ev")
+		g.emit(ind, "var %s any = %s", ev, x)
+		g.emit(ind, "%s, _ := %s.(*S)", v, ev)
+		e.E = append(e.E, ev)
+		g.count("rt-any")
+	case 9:
+		h := g.pick(e.P)
+		ev := g.v("ev")
+		g.emit(ind, "%s.e = %s", h, x)
+		g.emit(ind, "%s := %s.e", ev, h)
+		g.emit(ind, "%s, _ := %s.(*S)", v, ev)
+		g.count("rt-anyfield")
+	case 10:
+		g.emit(ind, "G%d = %s", g.caseNo, x)
+		g.emit(ind, "%s := G%d", v, g.caseNo)
+		g.count("rt-global")
+	default:
+		av := g.v("av")
+		g.emit(ind, "%s := &A%d{s: %s}", av, g.caseNo, x)
+		e.AV = append(e.AV, av)
+		iv := g.v("iv")
+		g.emit(ind, "var %s I = %s", iv, av)
+		e.I = append(e.I, iv)
+		g.emit(ind, "%s := %s", v, x)
+		g.emit(ind, "if w, ok := %s.(*A%d); ok {", iv, g.caseNo)
+		g.emit(ind+1, "%s = w.s", v)
+		g.emit(ind, "}")
+		g.count("rt-iface")
+	}
+	g.defP(ind, e, v, true)
+}
+
 // closure emits `v := func(site int, x *S) *S {...}` capturing variables of the enclosing scope.
 func (g *pgen) closure(ind int, e *pvars, v string) {
 	fid := g.newFid()
@@ -723,6 +884,16 @@ func (g *pgen) genCase(c int) {
 	g.emit(0, "var G%d *S", c)
 	g.emit(0, "type A%d struct {\n\tn int\n\ts *S\n\tt *S\n}", c)
 	g.emit(0, "type B%d struct {\n\tn int\n\ts *S\n}", c)
+	g.emit(0, "type C%d struct {\n\tn int\n\t*A%d\n}", c, c)
+	// generic function (instantiated at *S and at func values)
+	g.emit(0, "func gid%d[T any](site int, x T) T {", c)
+	g.emit(1, "enter(%d, site)", g.newFid())
+	g.emit(1, "var keepT [1]T")
+	g.emit(1, "if site >= 0 {")
+	g.emit(2, "keepT[0] = x")
+	g.emit(1, "}")
+	g.emit(1, "return keepT[0]")
+	g.emit(0, "}")
 	// two-result helper
 	g.emit(0, "func swap%d(site int, x, y *S) (*S, *S) {", c)
 	g.emit(1, "enter(%d, site)", g.newFid())
@@ -739,6 +910,22 @@ func (g *pgen) genCase(c int) {
 	g.emit(1, "}")
 	g.emit(1, "x.q = y")
 	g.emit(1, "return rec%d(%d, y, x, d-1)", c, g.newSite())
+	g.emit(0, "}")
+	// panic with a pointer payload, recovered by a deferred closure that publishes it through the named result
+	g.emit(0, "func pan%d(site int, x *S) (r *S) {", c)
+	g.emit(1, "enter(%d, site)", g.newFid())
+	g.emit(1, "defer func() {")
+	g.emit(2, "if v := recover(); v != nil {")
+	g.emit(3, "if p, ok := v.(*S); ok {")
+	g.probeP(4, "p")
+	g.emit(4, "r = p")
+	g.emit(3, "}")
+	g.emit(2, "}")
+	g.emit(1, "}()")
+	g.emit(1, "if %s {", g.newCond())
+	g.emit(2, "panic(x)")
+	g.emit(1, "}")
+	g.emit(1, "return x")
 	g.emit(0, "}")
 	// methods
 	for _, m := range []struct{ recv, name string }{{"A", "M"}, {"B", "M"}} {
